@@ -19,6 +19,8 @@ if ROOT not in sys.path:
 from sim.seedhash import H  # noqa: E402
 
 SESSION_CAP_S = 420
+# wall-clock budget per batch (the registered commands run under `timeout 7000`)
+BUDGET_S = {"quick": 3000, "thorough": 5400}
 
 QUICK_SESSIONS = {
     "default": 40,
@@ -131,8 +133,18 @@ def summarise_gfisim(sc, sess, pid):
 
 
 def run_chunk(jobs):
+    """Sessions of one worker, in order; sessions that would start after the
+    batch's wall-clock budget are not started (each session is still a pure
+    function of its seed: the budget only decides how many are explored)."""
     _worker_init()
-    return [run_one(j) for j in jobs]
+    out = []
+    for j in jobs:
+        dl = j.get("deadline")
+        if dl is not None and time.time() > dl:
+            out.append({"j": j["j"], "seed": j["seed"], "pid": j["pid"], "not_started": True})
+        else:
+            out.append(run_one(j))
+    return out
 
 
 # ---------------------------------------------------------------- parent side
@@ -183,7 +195,17 @@ def main_check(pid, tier, seed, workers, sessions=None, keep_going=False):
         for j in range(n)
     ]
     engine = engines[0]
+    budget = float(os.environ.get("VERIF_BUDGET_S") or (BUDGET_S[tier]))
+    for jb in jobs:
+        jb["deadline"] = t0 + budget
     results = run_jobs(jobs, workers)
+    not_started = [r for r in results if r.get("not_started")]
+    results = [r for r in results if not r.get("not_started")]
+    if not_started:
+        print("wall-clock budget of %ds reached: %d of %d sessions explored" % (budget, len(results), n))
+    if not results:
+        print("no session explored: no verdict")
+        return 2
     herr = [r for r in results if r.get("harness_error")]
     if herr:
         for r in herr[:5]:
@@ -234,7 +256,7 @@ def main_check(pid, tier, seed, workers, sessions=None, keep_going=False):
     nv = len(mine)
     print(
         "%s %s: %d sessions, %d steps, %d violations of this property (%d distinct reported), %d matched known findings, %.1fs"
-        % (pid, tier, n, sum(r.get("steps", 0) for r in results), nv, len(replay_paths), sum(known_hits.values()), time.time() - t0)
+        % (pid, tier, len(results), sum(r.get("steps", 0) for r in results), nv, len(replay_paths), sum(known_hits.values()), time.time() - t0)
     )
     return exit_code
 
